@@ -110,6 +110,10 @@ class Module:
             if n.id in self.funcs:
                 # a named function used where construct takes a callable (decoder=, Computed(), Check()): an expression like a lambda
                 return Expr(n.id, self.funcs[n.id], self.name)
+            cdef_ = next((s_ for s_ in self.tree.body if isinstance(s_, ast.ClassDef) and s_.name == n.id), None)
+            if cdef_ is not None:
+                from sa.consteval import Opaque
+                return Opaque(f"class {self.name}.{n.id}", cdef_, self.name)
             return self.plain(n, loc)
         if isinstance(n, ast.Attribute):
             if self.is_c(n):
@@ -225,7 +229,19 @@ class Module:
             if k == "FocusedSeq":
                 return mk(k, focus=args[0], subs=args[1:])
             if k == "Enum":
-                return mk(k, sub=args[0], mapping=kw)
+                mapping = dict(kw)
+                for extra in args[1:]:
+                    # construct.Enum(subcon, SomeIntEnum): the members of the enum class are merged into the mapping
+                    cls_node = getattr(extra, "node", None)
+                    if isinstance(cls_node, ast.ClassDef):
+                        for s_ in cls_node.body:
+                            if isinstance(s_, ast.Assign) and len(s_.targets) == 1 and isinstance(s_.targets[0], ast.Name) and isinstance(s_.value, ast.Constant) and isinstance(s_.value.value, int):
+                                mapping.setdefault(s_.targets[0].id, s_.value.value)
+                    elif isinstance(extra, dict):
+                        mapping.update(extra)
+                    else:
+                        raise NotImplementedError("construct.Enum with an unresolved merge argument")
+                return mk(k, sub=args[0], mapping=mapping)
             if k == "Const":
                 return mk(k, value=args[0], sub=args[1] if len(args) > 1 else None)
             if k == "ExprAdapter":
@@ -257,6 +273,40 @@ class Module:
             raise NotImplementedError(f"construct.{k}")
         if isinstance(f, ast.Name) and f.id in self.funcs:
             return self.inline(self, self.funcs[f.id], n, loc)
+        if isinstance(f, ast.Name) and f.id not in loc:
+            # an Adapter subclass of the module: subcon wrapped by its _decode method, with the instance fields set by __init__ substituted
+            cdef = next((s_ for s_ in self.tree.body if isinstance(s_, ast.ClassDef) and s_.name == f.id), None)
+            if cdef is not None and any(ast.unparse(b_).endswith("Adapter") for b_ in cdef.bases):
+                args = self.args_of(n, loc)
+                kwv = {a.arg: self.ev(a.value, loc) for a in n.keywords if a.arg}
+                init = next((s_ for s_ in cdef.body if isinstance(s_, ast.FunctionDef) and s_.name == "__init__"), None)
+                dec = next((s_ for s_ in cdef.body if isinstance(s_, ast.FunctionDef) and s_.name == "_decode"), None)
+                if dec is None or not args or not isinstance(args[0], N):
+                    raise NotImplementedError(f"adapter class {f.id} without _decode / subcon")
+                fields = {}
+                if init is not None:
+                    params = [a.arg for a in init.args.args][1:]
+                    bound = dict(zip(params, args))
+                    bound.update(kwv)
+                    for s_ in ast.walk(init):
+                        if isinstance(s_, (ast.Assign, ast.AnnAssign)) and s_.value is not None:
+                            t_ = s_.targets[0] if isinstance(s_, ast.Assign) else s_.target
+                            if isinstance(t_, ast.Attribute) and isinstance(t_.value, ast.Name) and t_.value.id == "self":
+                                if isinstance(s_.value, ast.Name) and s_.value.id in bound:
+                                    fields[t_.attr] = bound[s_.value.id]
+                                elif isinstance(s_.value, ast.Constant):
+                                    fields[t_.attr] = s_.value.value
+                import copy
+
+                class _Sub(ast.NodeTransformer):
+                    def visit_Attribute(self, node):
+                        if isinstance(node.value, ast.Name) and node.value.id == "self" and node.attr in fields and isinstance(fields[node.attr], (int, str, float, type(None), bool)):
+                            return ast.copy_location(ast.Constant(fields[node.attr]), node)
+                        return self.generic_visit(node)
+                d2 = _Sub().visit(copy.deepcopy(dec))
+                d2.args.args = d2.args.args[1:]
+                ast.fix_missing_locations(d2)
+                return N("ExprAdapter", {"sub": args[0], "decoder": Expr(f"{f.id}._decode", d2, self.name)}, line=n.lineno)
         if isinstance(f, ast.Attribute) and isinstance(f.value, ast.Name) and f.value.id in self.imports:
             m = self.world.module(self.imports[f.value.id])
             if f.attr in m.funcs:
